@@ -332,8 +332,10 @@ def _finish(cid, tier, seed, mod, t0, groups, results, meta, capped):
         for case, r in lst[:3]:
             path = write_replay(cid, case, seed, r)
             rc = confirm_in_fresh_process(path)
-            if rc == 1 or (sig.endswith("/crash") and rc not in (0, 2)):
-                new_violations.append((sig, path, r, len(lst)))
+            if rc == 1 or (rc < 0 and rc != -999) or (sig.endswith("/crash") and rc not in (0, 2)):
+                # rc < 0: the fresh process was killed by a signal (segfault/abort inside the code under test) while replaying
+                # the failing case: a reproducible crash is a verdict, not a harness problem
+                new_violations.append((sig if (rc >= 0 or rc == -999 or sig.endswith("/crash")) else sig + "/crash-on-replay", path, r, len(lst)))
                 confirmed = True
                 break
             if rc == 0:
